@@ -616,10 +616,6 @@ func (d *partialDoc) add(key string, val *lazyNode, options *ApplyOptions) error
 }
 
 func (d *partialDoc) get(key string, options *ApplyOptions) (*lazyNode, error) {
-	if key == "" {
-		return d.self, nil
-	}
-
 	if d.obj == nil {
 		return nil, ErrExpectedObject
 	}
@@ -717,10 +713,6 @@ func (d *partialArray) add(key string, val *lazyNode, options *ApplyOptions) err
 }
 
 func (d *partialArray) get(key string, options *ApplyOptions) (*lazyNode, error) {
-	if key == "" {
-		return d.self, nil
-	}
-
 	idx, err := strconv.Atoi(key)
 
 	if err != nil {
@@ -1169,16 +1161,7 @@ func (p Patch) copy(doc *container, op Operation, accumulatedCopySize *int64, op
 		return fmt.Errorf("copy operation failed to decode from: %w", err)
 	}
 
-	con, key := findObject(doc, from, options)
-
-	if con == nil {
-		return fmt.Errorf("copy operation does not apply: doc is missing from path: \"%s\": %w", from, ErrMissing)
-	}
-
-	val, err := con.get(key, options)
-	if err != nil {
-		return fmt.Errorf("error in copy for from: '%s': %w", from, err)
-	}
+	var val *lazyNode
 
 	if from == "" {
 		// "" is the whole document as it is now, not the bytes it was parsed from
@@ -1188,6 +1171,17 @@ func (p Patch) copy(doc *container, op Operation, accumulatedCopySize *int64, op
 		case *partialArray:
 			val = &lazyNode{ary: sv, which: eAry}
 		}
+	} else {
+		con, key := findObject(doc, from, options)
+
+		if con == nil {
+			return fmt.Errorf("copy operation does not apply: doc is missing from path: \"%s\": %w", from, ErrMissing)
+		}
+
+		val, err = con.get(key, options)
+		if err != nil {
+			return fmt.Errorf("error in copy for from: '%s': %w", from, err)
+		}
 	}
 
 	path, err := op.Path()
@@ -1195,7 +1189,7 @@ func (p Patch) copy(doc *container, op Operation, accumulatedCopySize *int64, op
 		return fmt.Errorf("copy operation failed to decode path: %w", ErrMissing)
 	}
 
-	con, key = findObject(doc, path, options)
+	con, key := findObject(doc, path, options)
 
 	if con == nil {
 		return fmt.Errorf("copy operation does not apply: doc is missing destination path: %s: %w", path, ErrMissing)
